@@ -15,7 +15,7 @@ inventories, texts that differ from the parents are held locally), every file of
 revision can be read and every revision diffed against its parents using stacked repository +
 fallback, testaments equal the source's, check() clean, refused calls change nothing.
 """
-import _c03_common as C
+from props import _c03_common as C
 import daglib
 
 PROP = "C08"
@@ -125,7 +125,8 @@ def _random_case(rng, u):
     vis = set(C.anc_present(g, set(), fb))
     ops = []
     for _ in range(rng.randint(1, 5)):
-        can = [c for c in range(n) if c not in vis and all(p >= n or p in vis for p in g[c])]
+        can = [c for c in range(n) if c not in vis and all(p >= n or p in vis for p in g[c])
+               and (not stacked or len([p for p in g[c] if p < n]) < 2)]
         if can and sf == "2a" and rng.random() < 0.5:      # (a 2a commit has a rich root: not the pack-0.92 source's revision)
             c = rng.choice(can)
             ops.append(["commit", c])
@@ -217,6 +218,8 @@ def oracle(case, obs):
             bad.append("step %d: testament_bad %r" % (k, so["testament_bad"]))
         if so["text_bad"]:
             bad.append("step %d: text_bad %r" % (k, so["text_bad"][:3]))
+        if so["sig_bad"]:
+            bad.append("step %d: sig_bad %r" % (k, so["sig_bad"][:5]))
         if so["textparents_bad"]:
             bad.append("step %d: textparents_bad %r" % (k, so["textparents_bad"][:3]))
         if so["check"]:
@@ -226,7 +229,23 @@ def oracle(case, obs):
 
 
 def finding_matches(fid, case, obs, why):
-    return False
+    if fid != "C08-stacked-merge-commit-heads":
+        return False
+    ks = C.stacked_merge_commits(case)
+    if not ks:
+        return False
+    # only the symptoms of that defect (spurious per-file versions), at or after the merge commit
+    for part in why.split("; "):
+        if not part.startswith("step "):
+            return False
+        k = int(part.split(":")[0][5:])
+        if k < ks[0]:
+            return False
+        if not any(s in part for s in ("check: inconsistent_parents", "testament_bad", "textparents_bad", "invariant: ")):
+            return False
+        if "invariant: " in part and "differs from the parents but is not local" not in part:
+            return False
+    return True
 
 
 def nontrivial(case, obs):
